@@ -28,8 +28,10 @@ Record mquirks := {
   q_ts_test_marker_anywhere: bool;  (* "test_" etc. searched in the whole path: contest_data.ts is "test code" *)
   q_ts_single_letter_const : bool;  (* const N = 5: a one-letter upper-case name counts as a constant (Python requires two characters) *)
   q_rs_hex_suffix_clash    : bool;  (* the type suffixes tried are those the source tries (before the repair 0x1f32 lost "f32") *)
+  q_py_enumerate_kw_flagged: bool;  (* enumerate(xs, start=5): the literal's parent is ast.keyword, not the Call *)
+  q_py_upper_binop_flagged : bool;  (* NAME = 60 * 5: the parent is BinOp, not Assign *)
 }.
-Definition m_ideal : mquirks := Build_mquirks false false false false false false false false false.
+Definition m_ideal : mquirks := Build_mquirks false false false false false false false false false false false.
 
 (* ------------------------------------------------------------------ abstract input *)
 Inductive mlang := MPy | MTs | MRs.
@@ -48,8 +50,10 @@ Inductive ctx :=
 | CUpperNeg      (* NAME = -L           *)
 | CUpperAnn      (* NAME: int = L       const NAME: number = L; *)
 | CUpperTuple    (* NAME = (L, L,)      const NAME = [L, L];   const NAME: &[i64] = &[L, L]; *)
+| CUpperBinop    (* NAME = L * L  /  NAME = x * L      const NAME = L * L;    const NAME: i64 = L * L; *)
 | CRange         (* for i in range(L, L): pass *)
 | CEnumerate     (* for i, w in enumerate(xs, L): pass *)
+| CEnumerateKw   (* for i, w in enumerate(xs, start=L): pass *)
 | CStrRepeatL    (* name = "-" * L      *)
 | CStrRepeatR    (* name = L * "-"      *)
 | CDictKeys      (* name = {L: "k0", L: "k1"} *)
@@ -195,8 +199,10 @@ Definition py_ctx_chain (c : ctx) (name : string) (l : lit) : list pyanc :=
   | CNeg | CUpperNeg => [AOther "UnaryOp"; asg]
   | CUpperAnn => [AAnnAssign (Some name)]
   | CUpperTuple => [AOther "Tuple"; asg]
+  | CUpperBinop => [ABinOp "Mult" false false; asg]
   | CRange => [ACall (Some "range"); AOther "For"]
   | CEnumerate => [ACall (Some "enumerate"); AOther "For"]
+  | CEnumerateKw => [AOther "keyword"; ACall (Some "enumerate"); AOther "For"]
   | CStrRepeatL => [ABinOp "Mult" true (lit_is_str l); asg]
   | CStrRepeatR => [ABinOp "Mult" (lit_is_str l) true; asg]
   | CDictKeys => [ADict true; asg]
@@ -259,6 +265,7 @@ Definition py_is_const_def (q : mquirks) (anc : list pyanc) : bool :=
   | AOther "Tuple" :: AAssign tg :: _ => negb (q_py_upper_tuple_flagged q) && existsb upper_target tg
   | AOther "List" :: AAssign tg :: _ => negb (q_py_upper_tuple_flagged q) && existsb upper_target tg
   | AAnnAssign t :: _ => negb (q_py_upper_ann_flagged q) && upper_target t
+  | ABinOp _ _ _ :: AAssign tg :: _ => negb (q_py_upper_binop_flagged q) && existsb upper_target tg
   | _ => false
   end.
 
@@ -270,6 +277,17 @@ Definition py_small_in (types : list string) (lo : Z) (lo_cmp hi_cmp : cmp) (fna
   val_isinstance (p_val s) types
   && (cmp_z lo_cmp lo (val_int (p_val s)) && cmp_z hi_cmp (val_int (p_val s)) (max_small cfg))
   && parent_is_call (p_anc s) fname.
+
+(* the literal is the value of a keyword argument of the call (enumerate(xs, start=L)): not seen by the code, whose parent test
+   stops at the ast.keyword node *)
+Definition kw_parent_is_call (anc : list pyanc) (fname : string) : bool :=
+  match anc with AOther "keyword" :: ACall (Some f) :: _ => String.eqb f fname | _ => false end.
+
+Definition py_small_kw (types : list string) (lo : Z) (lo_cmp hi_cmp : cmp) (fname : string)
+           (cfg : mconfig) (s : pysite) : bool :=
+  val_isinstance (p_val s) types
+  && (cmp_z lo_cmp lo (val_int (p_val s)) && cmp_z hi_cmp (val_int (p_val s)) (max_small cfg))
+  && kw_parent_is_call (p_anc s) fname.
 
 Definition py_string_repetition (s : pysite) : bool :=
   val_isinstance (p_val s) py_strrep_value_types
@@ -287,6 +305,8 @@ Definition py_site_report (q : mquirks) (cfg : mconfig) (is_test : bool) (s : py
   else if is_test || py_is_const_def q (p_anc s)
           || py_small_in py_range_value_types py_range_lo py_range_lo_cmp py_range_hi_cmp py_range_name cfg s
           || py_small_in py_enumerate_value_types py_enumerate_lo py_enumerate_lo_cmp py_enumerate_hi_cmp py_enumerate_name cfg s
+          || (negb (q_py_enumerate_kw_flagged q)
+              && py_small_kw py_enumerate_value_types py_enumerate_lo py_enumerate_lo_cmp py_enumerate_hi_cmp py_enumerate_name cfg s)
           || py_string_repetition s
        then []
        else [(p_line s, rval_of (p_val s))].
@@ -355,7 +375,7 @@ Definition ts_ctx_chain (c : ctx) (name : string) : list tsanc :=
   | CDefault => tnames ["required_parameter"; "formal_parameters"; "function_declaration"]
   | CElts | CUpperTuple => tn "array" :: ts_decl name
   | CCompare => tnames ["binary_expression"; "parenthesized_expression"; "if_statement"]
-  | CBinop | CMul => tn "binary_expression" :: ts_decl name
+  | CBinop | CMul | CUpperBinop => tn "binary_expression" :: ts_decl name
   | CNeg | CUpperNeg => tn "unary_expression" :: ts_decl name
   | CTsEnum => tnames ["enum_assignment"; "enum_body"; "enum_declaration"]
   | CInterp => tnames ["template_substitution"; "template_string"] ++ ts_decl name
@@ -476,6 +496,7 @@ Definition rs_ctx_chain (c : ctx) : list rsanc :=
   | CUpper => rnames ["const_item"]
   | CUpperNeg => rnames ["unary_expression"; "const_item"]
   | CUpperTuple => rnames ["array_expression"; "reference_expression"; "const_item"]
+  | CUpperBinop => rnames ["binary_expression"; "const_item"]
   | CRsStatic => rnames ["static_item"]
   | CMacro => rnames ["token_tree"; "macro_invocation"; "expression_statement"]
   | CNested => rnames ["array_expression"; "array_expression"; "let_declaration"]
